@@ -17,6 +17,9 @@ P['C08'] = dict(cat='other', tech='ownership / alias analysis of handle-holding 
 P['C11'] = dict(cat='other', tech='accessor inventory by signature shape + per-accessor discipline rules on AST/CFG, finite enumeration of the type enum (custom libTooling checker)',
    text='Every positional accessor is bounds-checked on the full-width unmodified index and translates to std::out_of_range; index-by-name functions are first-exact-match loops ending in std::invalid_argument; by-name accessors compose the two on one container; typed getters enumerated over all DATA_TYPE values; every name store is trimmed. Full claim except the text of messages.',
    note='Assumes std::vector::at and std::string::compare behave per the standard. ' + TB, ref='4/C11')
+P['C14'] = dict(cat='other', tech='effect-set (purity), source-inventory (determinism), write-site classification with path-sensitive width evaluation (definedness), constructor definite-initialisation (custom libTooling checker)',
+   text='Partial claim: decides the structural necessary conditions - save call graph is effect-free on anything that outlives the call, uses no nondeterministic source, every write(ptr,n) emits bytes of an initialised object at least n wide or exactly a string\'s characters, every constructor initialises every scalar member. Does not observe byte identity.',
+   note='Assumes vector elements are initialised, written scalars have no padding, compiler enforces const. ' + TB, ref='4/C14')
 NA = {
  'C19': 'compares compiled artefacts across optimisation levels / link kinds; not decidable from source without running the builds (DESIGN 4/C19)',
 }
